@@ -11,6 +11,7 @@ package main
 
 import (
 	"go/types"
+	"sort"
 	"strings"
 
 	"golang.org/x/tools/go/ssa"
@@ -27,6 +28,7 @@ type vfsHandle struct {
 	f      *vfsFile
 	pos    int64
 	append bool
+	dir    string // directory handle (f == nil)
 }
 
 func (ex *Exec) vfsPath(v Value) string {
@@ -50,6 +52,7 @@ func (ex *Exec) vfsNew(name string) *vfsFile {
 	}
 	f := &vfsFile{obj: ex.newObject(vfsCap, "vfs:"+name)}
 	ex.vfs[name] = f
+	ex.vfsMkdirAll(vfsParent(name))
 	return f
 }
 
@@ -91,15 +94,60 @@ func (ex *Exec) vfsHandleOf(v Value) *vfsHandle {
 	return ex.vfsH[p.obj]
 }
 
-func (ex *Exec) vfsStat(f *vfsFile) Value {
+// vfsInfo builds an *os.fileStat laid out as the real type (name, size,
+// mode), so that the real FileInfo methods work on it.
+func (ex *Exec) vfsInfo(name string, size int64, isDir bool) Value {
 	op := ex.prog.byPath["os"]
 	if op == nil {
 		panic(pathEnd{stOutOfModel, "package os not loaded"})
 	}
 	named := op.Type("fileStat").Type()
-	o := ex.newObject(256, "vfs-stat")
-	ex.storeNum(Ptr{o, zero64}, 8, c64(f.n))
+	st := named.Underlying().(*types.Struct)
+	offs := ex.prog.fieldOffsets(st)
+	o := ex.newObject(sizeof(named), "vfs-stat")
+	for i := 0; i < st.NumFields(); i++ {
+		f := st.Field(i)
+		p := Ptr{o, c64(offs[i])}
+		switch f.Name() {
+		case "name":
+			ex.store(f.Type(), p, ex.constString(name))
+		case "size":
+			ex.store(f.Type(), p, c64(size))
+		case "mode":
+			m := uint64(0644)
+			if isDir {
+				m = 1<<31 | 0755
+			}
+			ex.store(f.Type(), p, mkConst(32, m))
+		}
+	}
 	return Iface{t: types.NewPointer(named), v: Ptr{o, zero64}}
+}
+
+func (ex *Exec) vfsStat(f *vfsFile) Value { return ex.vfsInfo("vfs-file", f.n, false) }
+
+func vfsBase(p string) string {
+	if i := strings.LastIndex(p, "/"); i >= 0 {
+		return p[i+1:]
+	}
+	return p
+}
+
+func vfsParent(p string) string {
+	if i := strings.LastIndex(p, "/"); i > 0 {
+		return p[:i]
+	}
+	return ""
+}
+
+func (ex *Exec) vfsMkdirAll(p string) {
+	if ex.vfsDirs == nil {
+		ex.vfsDirs = map[string]bool{}
+	}
+	for p != "" && !ex.vfsDirs[p] {
+		ex.vfsDirs[p] = true
+		p = vfsParent(p)
+	}
 }
 
 func init() {
@@ -137,6 +185,7 @@ func init() {
 		return Iface{}
 	}, "os.Rename")
 	reg(func(ex *Exec, fn *ssa.Function, args []Value, caller *frame) Value {
+		ex.vfsMkdirAll(ex.vfsPath(args[0]))
 		return Iface{}
 	}, "os.MkdirAll", "os.Mkdir")
 	reg(func(ex *Exec, fn *ssa.Function, args []Value, caller *frame) Value {
@@ -144,6 +193,11 @@ func init() {
 		for k := range ex.vfs {
 			if k == name || strings.HasPrefix(k, name+"/") {
 				delete(ex.vfs, k)
+			}
+		}
+		for k := range ex.vfsDirs {
+			if k == name || strings.HasPrefix(k, name+"/") {
+				delete(ex.vfsDirs, k)
 			}
 		}
 		return Iface{}
@@ -186,10 +240,46 @@ func init() {
 		name := ex.vfsPath(args[0])
 		f, ok := ex.vfs[name]
 		if !ok {
+			if ex.vfsDirs[name] {
+				h := ex.vfsOpen(nil, false)
+				ex.vfsH[h.(Ptr).obj].dir = name
+				return Tuple{h, Iface{}}
+			}
 			return Tuple{nilPtr(), ex.vfsNotExist()}
 		}
 		return Tuple{ex.vfsOpen(f, false), Iface{}}
 	}, "os.Open")
+	// Readdir(n <= 0): every entry of the directory, sorted by name
+	reg(func(ex *Exec, fn *ssa.Function, args []Value, caller *frame) Value {
+		h := ex.vfsHandleOf(args[0])
+		if h == nil || h.f != nil {
+			panic(pathEnd{stOutOfModel, "Readdir on something that is not a directory of the in-memory file system"})
+		}
+		type ent struct {
+			name string
+			dir  bool
+			size int64
+		}
+		var ents []ent
+		for k, f := range ex.vfs {
+			if vfsParent(k) == h.dir {
+				ents = append(ents, ent{vfsBase(k), false, f.n})
+			}
+		}
+		for k := range ex.vfsDirs {
+			if vfsParent(k) == h.dir {
+				ents = append(ents, ent{vfsBase(k), true, 0})
+			}
+		}
+		sort.Slice(ents, func(i, j int) bool { return ents[i].name < ents[j].name })
+		et := fn.Signature.Results().At(0).Type().Underlying().(*types.Slice).Elem()
+		n := int64(len(ents))
+		arr := ex.newObject(16*n+16, "vfs-readdir")
+		for i, e := range ents {
+			ex.store(et, Ptr{arr, c64(16 * int64(i))}, ex.vfsInfo(e.name, e.size, e.dir))
+		}
+		return Tuple{Slice{Ptr{arr, zero64}, c64(n), c64(n)}, Iface{}}
+	}, "(*os.File).Readdir")
 	reg(func(ex *Exec, fn *ssa.Function, args []Value, caller *frame) Value {
 		h := ex.vfsHandleOf(args[0])
 		p, n := sliceBytes(ex, args[1])
@@ -233,13 +323,13 @@ func init() {
 		name := ex.vfsPath(args[0])
 		f, ok := ex.vfs[name]
 		if !ok {
+			if ex.vfsDirs[name] {
+				return Tuple{ex.vfsInfo(vfsBase(name), 0, true), Iface{}}
+			}
 			return Tuple{Iface{}, ex.vfsNotExist()}
 		}
-		return Tuple{ex.vfsStat(f), Iface{}}
+		return Tuple{ex.vfsInfo(vfsBase(name), f.n, false), Iface{}}
 	}, "os.Stat")
-	reg(func(ex *Exec, fn *ssa.Function, args []Value, caller *frame) Value {
-		return ex.loadNum(args[0].(Ptr), 8)
-	}, "(*os.fileStat).Size")
 	// syscall.Mmap(fd, offset, length, prot, flags): a view of the file's bytes
 	reg(func(ex *Exec, fn *ssa.Function, args []Value, caller *frame) Value {
 		fd := int(ex.concretize(args[0].(*Term)))
